@@ -107,6 +107,7 @@ func (p transportProfile) String() string {
 type xferWorld struct {
 	termMark int // terminal offset at which the current transfer began
 	ccTyped  []byte // srvCCFrame: what was typed into tmux's command channel
+	chunkHooks []func(l *verifsim.Link, d []byte) // vOnChunk hooks, also applied to tunnel connections dialled later
 	rc *runCtx
 	w  *verifsim.World
 	o  *xferOpts
@@ -242,6 +243,17 @@ func (x *xferWorld) connector(proc string, hop int) func(int) net.Conn {
 			return nil
 		}
 		x.tunnelConns = append(x.tunnelConns, c)
+		for _, l := range []*verifsim.Link{c.Wr, c.R} {
+			prev := l.OnWrite
+			l.OnWrite = func(ll *verifsim.Link, d []byte) {
+				if prev != nil {
+					prev(ll, d)
+				}
+				for _, h := range x.chunkHooks {
+					h(ll, d)
+				}
+			}
+		}
 		return c
 	}
 }
